@@ -89,6 +89,34 @@ def render_task(spec, funcs, blocklines):
         emit(ind + 1, "x = 1")
         emit(ind, "except ValueError:")
         emit(ind + 1, "pass")
+    elif end == "try_except_reraise":
+        # the try suite runs off its end, every handler leaves by raise / return (cancel-and-reraise idiom)
+        emit(ind, "try:")
+        emit(ind + 1, "x = 1")
+        emit(ind, "except ValueError:")
+        emit(ind + 1, "n0.cancel_scope.cancel()")
+        emit(ind + 1, "raise")
+        emit(ind, "except KeyError:")
+        emit(ind + 1, "return 7")
+    elif end == "try_except_else":
+        emit(ind, "try:")
+        emit(ind + 1, "x = 1")
+        emit(ind, "except ValueError as exc:")
+        emit(ind + 1, "raise RuntimeError('x') from exc")
+        emit(ind, "else:")
+        emit(ind + 1, "y = 2")
+    elif end == "try_except_finally":
+        emit(ind, "try:")
+        emit(ind + 1, "x = 1")
+        emit(ind, "except ValueError:")
+        emit(ind + 1, "raise")
+        emit(ind, "finally:")
+        emit(ind + 1, "y = 2")
+    elif end == "while_else":
+        emit(ind, "while flag:")
+        emit(ind + 1, "break")
+        emit(ind, "else:")
+        emit(ind + 1, "y = 2")
     elif end == "try_finally":
         emit(ind, "try:")
         emit(ind + 1, "x = 1")
